@@ -17,7 +17,9 @@ import Dhcp.V6.Codec
   * `nest6`: Σ over every option at every level of the length of its encoded
     value — what `ToBytes` writes: each option value is built in its own
     buffer and then copied into the buffer of the enclosing list, so a byte is
-    written once per enclosing level.
+    written once per enclosing level.  Used by the `cost` stream only (the
+    fine-grained side of the two-sided fit); `lenNest_fst` in
+    DhcpProofs/Lemmas/Cost6.lean shows the lengths are those of `encOpt`.
   * `work6 m b = |b|·(depth6 m + c1) + c2·size6 m`: the allocation envelope
     the C09 work theorem is about (see DhcpProofs/Props/C09.lean for how it
     relates to what the Go code allocates).
@@ -153,49 +155,58 @@ def depth6 : Msg6 → Nat
 end
 
 mutual
-/-- Σ over the option and all options below it of the encoded value length -/
-def nestOpt : Opt6 → Nat
-  | .iana i a b os => (encOpt (.iana i a b os)).length + nestOpts os
-  | .iata i os => (encOpt (.iata i os)).length + nestOpts os
-  | .iaaddr i a b os => (encOpt (.iaaddr i a b os)).length + nestOpts os
-  | .iapd i a b os => (encOpt (.iapd i a b os)).length + nestOpts os
-  | .iaprefix a b p os => (encOpt (.iaprefix a b p os)).length + nestOpts os
-  | .fourRD os => (encOpt (.fourRD os)).length + nestOpts os
-  | .relayMsg m => nest6 m
-  | .clientID d => (encOpt (.clientID d)).length
-  | .serverID d => (encOpt (.serverID d)).length
-  | .oro x => (encOpt (.oro x)).length
-  | .elapsed x => (encOpt (.elapsed x)).length
-  | .status x y => (encOpt (.status x y)).length
-  | .userClass x => (encOpt (.userClass x)).length
-  | .vendorClass x y => (encOpt (.vendorClass x y)).length
-  | .vendorOpts x y => 2 * (encOpt (.vendorOpts x y)).length
-  | .interfaceID x => (encOpt (.interfaceID x)).length
-  | .dns x => (encOpt (.dns x)).length
-  | .domainSearch x => (encOpt (.domainSearch x)).length
-  | .infoRefresh x => (encOpt (.infoRefresh x)).length
-  | .remoteID x y => (encOpt (.remoteID x y)).length
-  | .fqdn x y => (encOpt (.fqdn x y)).length
-  | .ntp x => 2 * (encOpt (.ntp x)).length
-  | .bootfileURL x => (encOpt (.bootfileURL x)).length
-  | .bootfileParam x => (encOpt (.bootfileParam x)).length
-  | .archType x => (encOpt (.archType x)).length
-  | .nii x y z => (encOpt (.nii x y z)).length
-  | .clientLLA x y => (encOpt (.clientLLA x y)).length
-  | .dhcpv4Msg p => (encOpt (.dhcpv4Msg p)).length
-  | .dhcp4o6Server x => (encOpt (.dhcp4o6Server x)).length
-  | .fourRDMapRule a b c d e f => (encOpt (.fourRDMapRule a b c d e f)).length
-  | .fourRDNonMapRule a b c => (encOpt (.fourRDNonMapRule a b c)).length
-  | .relayPort x => (encOpt (.relayPort x)).length
-  | .generic c d => (encOpt (.generic c d)).length
-def nestOpts : List Opt6 → Nat
-  | [] => 0
-  | o :: os => 4 + nestOpt o + nestOpts os
-/-- bytes written by `ToBytes` of the message, every level's buffer counted -/
-def nest6 : Msg6 → Nat
-  | .msg t x os => (encMsg (.msg t x os)).length + nestOpts os
-  | .relay t h l p os => (encMsg (.relay t h l p os)).length + nestOpts os
+/-- `(encoded value length, Σ over the option and every option below it of the
+encoded value length)`, in one pass: the length of an option that carries an
+option list is its fixed part plus the lengths of the options in the list
+(4-byte header each); leaves are measured on their encoding. -/
+def lenNestOpt : Opt6 → Nat × Nat
+  | .iana _ _ _ os => let r := lenNestOpts os; (12 + r.1, 12 + r.1 + r.2)
+  | .iata _ os => let r := lenNestOpts os; (4 + r.1, 4 + r.1 + r.2)
+  | .iaaddr _ _ _ os => let r := lenNestOpts os; (24 + r.1, 24 + r.1 + r.2)
+  | .iapd _ _ _ os => let r := lenNestOpts os; (12 + r.1, 12 + r.1 + r.2)
+  | .iaprefix _ _ _ os => let r := lenNestOpts os; (25 + r.1, 25 + r.1 + r.2)
+  | .fourRD os => let r := lenNestOpts os; (r.1, r.1 + r.2)
+  | .relayMsg m => lenNest6 m
+  | .clientID d => let l := (encOpt (.clientID d)).length; (l, l)
+  | .serverID d => let l := (encOpt (.serverID d)).length; (l, l)
+  | .oro x => let l := (encOpt (.oro x)).length; (l, l)
+  | .elapsed x => let l := (encOpt (.elapsed x)).length; (l, l)
+  | .status x y => let l := (encOpt (.status x y)).length; (l, l)
+  | .userClass x => let l := (encOpt (.userClass x)).length; (l, l)
+  | .vendorClass x y => let l := (encOpt (.vendorClass x y)).length; (l, l)
+  | .vendorOpts x y => let l := (encOpt (.vendorOpts x y)).length; (l, 2 * l)
+  | .interfaceID x => let l := (encOpt (.interfaceID x)).length; (l, l)
+  | .dns x => let l := (encOpt (.dns x)).length; (l, l)
+  | .domainSearch x => let l := (encOpt (.domainSearch x)).length; (l, l)
+  | .infoRefresh x => let l := (encOpt (.infoRefresh x)).length; (l, l)
+  | .remoteID x y => let l := (encOpt (.remoteID x y)).length; (l, l)
+  | .fqdn x y => let l := (encOpt (.fqdn x y)).length; (l, l)
+  | .ntp x => let l := (encOpt (.ntp x)).length; (l, 2 * l)
+  | .bootfileURL x => let l := (encOpt (.bootfileURL x)).length; (l, l)
+  | .bootfileParam x => let l := (encOpt (.bootfileParam x)).length; (l, l)
+  | .archType x => let l := (encOpt (.archType x)).length; (l, l)
+  | .nii x y z => let l := (encOpt (.nii x y z)).length; (l, l)
+  | .clientLLA x y => let l := (encOpt (.clientLLA x y)).length; (l, l)
+  | .dhcpv4Msg p => let l := (encOpt (.dhcpv4Msg p)).length; (l, l)
+  | .dhcp4o6Server x => let l := (encOpt (.dhcp4o6Server x)).length; (l, l)
+  | .fourRDMapRule a b c d e f => let l := (encOpt (.fourRDMapRule a b c d e f)).length; (l, l)
+  | .fourRDNonMapRule a b c => let l := (encOpt (.fourRDNonMapRule a b c)).length; (l, l)
+  | .relayPort x => let l := (encOpt (.relayPort x)).length; (l, l)
+  | .generic c d => let l := (encOpt (.generic c d)).length; (l, l)
+def lenNestOpts : List Opt6 → Nat × Nat
+  | [] => (0, 0)
+  | o :: os =>
+    let a := lenNestOpt o
+    let b := lenNestOpts os
+    (4 + a.1 + b.1, 4 + a.2 + b.2)
+def lenNest6 : Msg6 → Nat × Nat
+  | .msg _ _ os => let r := lenNestOpts os; (4 + r.1, 4 + r.1 + r.2)
+  | .relay _ _ _ _ os => let r := lenNestOpts os; (34 + r.1, 34 + r.1 + r.2)
 end
+
+/-- bytes written by `ToBytes` of the message, every level's buffer counted -/
+def nest6 (m : Msg6) : Nat := (lenNest6 m).2
+def nestOpt (o : Opt6) : Nat := (lenNestOpt o).2
 
 /-- coefficient of the per-byte linear term of `work6` -/
 def c1 : Nat := 8
